@@ -59,3 +59,10 @@ Fixpoint bad_idx {A} (f : A -> bool) (l : list A) (i : nat) : list nat :=
   | x :: r => if f x then bad_idx f r (S i) else i :: bad_idx f r (S i)
   end.
 Definition mismatches (g : scfg) (ks : list kcase) : list nat := bad_idx (case_ok g) ks 0.
+
+(* ---- raw registerEvent / unregisterEvent sequences with caller-chosen ids (SignalsRaw.v): every
+        answer and, per emission, the Event frames written (connection, message id, in order) ---- *)
+From QV Require Import SignalsRaw.
+Record rcase := { rc_ops : list (rop * robs) }.
+Definition raw_mismatches (g : scfg) (ks : list rcase) : list nat :=
+  bad_idx (fun k => raw_agrees g rinit (rc_ops k)) ks 0.
